@@ -46,10 +46,11 @@ fn expand(script: &[Beh]) -> Vec<Beh> {
 
 fn src_byte(k: usize) -> u8 {
     // unique within 251 positions; never equal to the memory pattern (which has the top bit set)
-    ((k % 127) as u8) & 0x7f
+    (((k % 127) ^ (k / 127 % 64)) as u8) & 0x7f
 }
 fn mem_byte(k: usize) -> u8 {
-    0x80 | ((k as u8).wrapping_mul(31) & 0x7f)
+    // position dependent beyond one 128-byte period (long runs): mixes the higher index bits in
+    0x80 | ((((k ^ (k >> 7) ^ (k >> 13)) as u8).wrapping_mul(31)) & 0x7f)
 }
 
 #[derive(Debug, Clone)]
@@ -189,15 +190,24 @@ struct Rig {
     // guest layout: region A [0x1000, 0x1000+la), region B adjacent [.., +lb); hole after B
     la: usize,
     lb: usize,
+    /// long-run variant: region A and the slice are longer than 64 KiB (transfer magnitude)
+    big: bool,
 }
 
 impl Rig {
+    fn new_big() -> Rig {
+        let la = 0x11000usize + 24;
+        let lb = 20usize;
+        let ra = GuestRegionMmap::<()>::from_range(GuestAddress(0x1000), la, None).unwrap();
+        let rb = GuestRegionMmap::<()>::from_range(GuestAddress(0x1000 + la as u64), lb, None).unwrap();
+        Rig { arena: Arena::new(0x11000 + 40, Place::C(5)), gm: GuestMemoryMmap::from_regions(vec![ra, rb]).unwrap(), la, lb, big: true }
+    }
     fn new() -> Rig {
         let la = 24usize;
         let lb = 20usize;
         let ra = GuestRegionMmap::<()>::from_range(GuestAddress(0x1000), la, None).unwrap();
         let rb = GuestRegionMmap::<()>::from_range(GuestAddress(0x1000 + la as u64), lb, None).unwrap();
-        Rig { arena: Arena::new(40, Place::C(5)), gm: GuestMemoryMmap::from_regions(vec![ra, rb]).unwrap(), la, lb }
+        Rig { arena: Arena::new(40, Place::C(5)), gm: GuestMemoryMmap::from_regions(vec![ra, rb]).unwrap(), la, lb, big: false }
     }
     fn reset(&self) {
         self.arena.fill(mem_byte);
@@ -213,6 +223,8 @@ impl Rig {
             Target::Slice => (9, self.arena.len - 9),
             Target::Region => (5, self.la - 5),
             // starts 10 bytes before the end of region A: spans A and B
+            // (long-run variant: starts 16 bytes into A, so that > 64 KiB lie inside one region)
+            Target::GuestTwoRegions if self.big => (16, self.la - 16 + self.lb),
             Target::GuestTwoRegions => (self.la - 10, 10 + self.lb),
             Target::GuestEndsInHole => (self.la + self.lb - 6, 6),
         }
@@ -450,7 +462,7 @@ fn key(t: Target, e: Entry, script: &[Beh], count: usize, rig: &Rig, outc: &Outc
         Outcome::InvalidAddr => "invalid",
         Outcome::Other(_) => "other",
     };
-    out::key(&format!("{:?}|{:?}|{:?}|{}|{}", e, t, script, cc, oc), !script.is_empty());
+    out::key(&format!("{}{:?}|{:?}|{:?}|{}|{}", if rig.big { "long-run|" } else { "" }, e, t, script, cc, oc), !script.is_empty());
 }
 
 fn enumerate(maxlen: usize, shard: (u64, u64)) {
@@ -506,6 +518,38 @@ fn random_scripts(args: &Args) {
         if let Err(p) = guarded(|| run_one(&rig, t, e, &script, count)) {
             v(&format!("panic/{}", panic_sig(&p)), t, e, &script, count, J::s(p));
         }
+    }
+}
+
+/// Transfer magnitude: runs longer than 64 KiB inside one slice / region / guest range, random
+/// short scripts followed by well-behaved calls.
+fn long_runs(args: &Args) {
+    let rig = Rig::new_big();
+    for case in 0..args.u64("longcases", 160) {
+        if case % args.shard().1 != args.shard().0 {
+            continue;
+        }
+        let mut r = Rng::new(args.seed(), "c14-long", case);
+        let len = r.usize_below(5);
+        let script: Vec<Beh> = (0..len).map(|_| *r.pick(&ALPHA)).collect();
+        let t = *r.pick(&[Target::Slice, Target::Region, Target::GuestTwoRegions, Target::GuestTwoRegions]);
+        let e = *r.pick(&[Entry::ReadUpTo, Entry::ReadExact, Entry::WriteUpTo, Entry::WriteAll]);
+        let (_, run) = rig.geometry(t);
+        let count = match r.below(8) {
+            0 => run,
+            1 => run - 1,
+            2 => run + 1,
+            3 => 0x10000,
+            4 => 0x10001,
+            5 => 0xffff,
+            6 => 0x10000 + r.usize_below(run - 0x10000),
+            _ => r.usize_below(run + 3),
+        };
+        out::set_case(500_000 + case);
+        if let Err(p) = guarded(|| run_one(&rig, t, e, &script, count)) {
+            v(&format!("panic/{}", panic_sig(&p)), t, e, &script, count, J::s(p));
+        }
+        out::count("long_run_executions", 1);
     }
 }
 
@@ -613,6 +657,9 @@ pub fn run(args: &Args) {
         enumerate(maxlen, args.shard());
     }
     random_scripts(args);
+    if !cfg!(miri) {
+        long_runs(args);
+    }
     if args.shard().0 == 0 {
         fd_replay(args);
     }
